@@ -96,6 +96,7 @@ func get(ch chan asyncResult, d time.Duration) (asyncResult, bool) {
 func main() {
 	seed := flag.Int64("seed", 1, "seed")
 	which := flag.String("which", "C11", "C11 or C12")
+	onlyModel := flag.Int("only-model", 0, "run only this many multi-key scenarios against the Lean model")
 	rounds := flag.Int("rounds", 12, "rounds of every scenario")
 	prop := flag.String("property", "", "property")
 	out := flag.String("out", "", "stats json")
@@ -140,7 +141,7 @@ func main() {
 		return o
 	}
 
-	if *which == "C11" {
+	if *which == "C11" && *onlyModel == 0 {
 		for round := 0; round < *rounds && failures == 0; round++ {
 			// ---- conservation / exactly once / order
 			vs := redisemu.VerifNewStore("")
@@ -495,7 +496,7 @@ func main() {
 	}
 
 	// ---- quiescent random scenarios against the sequential oracle (oracle.go), both properties
-	for n := 0; n < *rounds*6 && failures == 0; n++ {
+	for n := 0; n < *rounds*6 && failures == 0 && *onlyModel == 0; n++ {
 		problem, steps := runOracleScenario(*seed*1000003+int64(n), stats)
 		if problem != "" {
 			fail("oracle", n, steps, problem)
@@ -509,7 +510,11 @@ func main() {
 		if d, err := drv.Start(); err != nil {
 			fail("model", 0, nil, "cannot start the model driver: "+err.Error())
 		} else {
-			for n := 0; n < *rounds*5 && failures == 0; n++ {
+			count := *rounds * 5
+			if *onlyModel > 0 {
+				count = *onlyModel
+			}
+			for n := 0; n < count && failures == 0; n++ {
 				problem, steps := runModelScenario(d, *seed*7368787+int64(n), stats)
 				if problem != "" {
 					fail("model", n, steps, problem)
